@@ -85,6 +85,17 @@ def chk_routes(c):
     for k in range(1, min(p, 2) + 1):
         d = bspline.deriv(K, coeffs, k, pts)
         assert np.max(np.abs(d - E[:, k, :].dot(coeffs))) <= tol(k) * 3 * n, 'deriv order %d (splev)' % k
+    # derivatives beyond the degree vanish on the spline-evaluation route as well
+    for k in (p + 1, p + 2):
+        d = np.asarray(bspline.deriv(K, coeffs, k, pts))
+        assert d.shape == pts.shape and np.all(d == 0), 'deriv of order %d > p = %d does not vanish' % (k, p)
+    # argument forms: python ints (integer-valued knots such as the end points) are scalars like floats
+    for u in sorted(set(float(x) for x in c['kv'] if float(x).is_integer())):
+        ui = int(u)
+        assert np.array_equal(np.asarray(bspline.active_ev(K, ui)), np.asarray(bspline.active_ev(K, u))), 'active_ev with the python int %d' % ui
+        assert np.array_equal(np.asarray(bspline.active_deriv(K, ui, 1)), np.asarray(bspline.active_deriv(K, u, 1))), 'active_deriv with the python int %d' % ui
+        assert bspline.single_ev(K, 0, ui) == bspline.single_ev(K, 0, u), 'single_ev with the python int %d' % ui
+        assert K.findspan(ui) == K.findspan(u)
     # assembler jets
     nj = min(p, 2)
     V = np.asarray(assemble_tools.compute_values_derivs(K, pts, nj))
